@@ -44,6 +44,14 @@ type World struct {
 // Short strips well-known import path prefixes so that tables stay readable.
 func Short(s string) string {
 	s = strings.ReplaceAll(s, "sigs.k8s.io/karpenter/pkg/", "")
+	// short aliases for the heavily used packages (longest first)
+	s = strings.ReplaceAll(s, "controllers/provisioning/scheduling.", "sched.")
+	s = strings.ReplaceAll(s, "controllers/provisioning.", "prov.")
+	s = strings.ReplaceAll(s, "controllers/nodeclaim/lifecycle.", "life.")
+	s = strings.ReplaceAll(s, "controllers/node/termination/terminator.", "tor.")
+	s = strings.ReplaceAll(s, "controllers/node/termination.", "term.")
+	s = strings.ReplaceAll(s, "controllers/disruption.", "disr.")
+	s = strings.ReplaceAll(s, "controllers/state.", "state.")
 	s = strings.ReplaceAll(s, "sigs.k8s.io/karpenter/", "")
 	s = strings.ReplaceAll(s, "sigs.k8s.io/controller-runtime/pkg/", "cr/")
 	s = strings.ReplaceAll(s, "k8s.io/api/core/v1", "corev1")
